@@ -50,10 +50,14 @@ def cells(tier):
     out = []
     backends = ['dict', 'disk', 'redis', 'cloud']
     if tier == 'quick':
-        for b in backends:
+        for b, shape in zip(backends, ('mapping', 'sequence', 'mapping-rev',
+                                       'mapping')):
             out.append({'kind': 'rounds', 'backend': b, 'n': 3, 'rounds': 3,
-                        'shape': 'mapping' if b in ('dict', 'redis')
-                        else 'sequence'})
+                        'shape': shape})
+        out.append({'kind': 'rounds', 'backend': 'dict', 'n': 2, 'rounds': 3,
+                    'shape': 'mapping-rev'})
+        for b in ('disk', 'redis', 'cloud'):
+            out.append({'kind': 'inject', 'backend': b, 'n': 2, 'K': 40})
         for b in ('dict', 'redis'):
             out.append({'kind': 'sched', 'backend': b, 'n': 2, 'pools': 1})
         out.append({'kind': 'sched', 'backend': 'disk', 'n': 2, 'pools': 0})
@@ -63,8 +67,10 @@ def cells(tier):
         for b in backends:
             out.append({'kind': 'rounds', 'backend': b, 'n': 2, 'rounds': 2,
                         'shape': 'mapping', 'startup_race': 1})
+        for b in ('disk', 'redis', 'cloud'):
+            out.append({'kind': 'inject', 'backend': b, 'n': 3, 'K': 70})
         for b in backends:
-            for shape in ('mapping', 'sequence'):
+            for shape in ('mapping', 'sequence', 'mapping-rev'):
                 out.append({'kind': 'rounds', 'backend': b, 'n': 4,
                             'rounds': 3, 'shape': shape})
             out.append({'kind': 'rounds', 'backend': b, 'n': 3, 'rounds': 4,
@@ -147,13 +153,15 @@ def run_rounds(cell):
     qc.patch_env()
     store, sub = qc.make_storage(cell['backend'])
     n, R = cell['n'], cell['rounds']
-    shape = qc.Outcome.MAPPING if cell['shape'] == 'mapping' \
-        else qc.Outcome.SEQUENCE
+    shape = qc.Outcome.SEQUENCE if cell['shape'] == 'sequence' \
+        else qc.Outcome.MAPPING
 
     def decide(rec):
         return shape, per_rcpt_outcomes(rec, 3)
 
     relay = qc.ScriptRelay(decide)
+    if cell['shape'] == 'mapping-rev':
+        relay.mapping_order = 'reversed'
     delays = []
 
     def backoff(envelope, attempts):
@@ -250,6 +258,96 @@ def run_sched(cell):
     check_attempts(relay, info)
 
 
+def run_inject(cell):
+    """an external event (duplicate announcement of the message through the
+    storage's wait() mechanism, or flush()) injected inside the k-th storage
+    operation of the run, for every k"""
+    import gevent
+    import pickle
+    from slimta.queue import Queue
+    qc.fresh_hub()
+    qc.patch_env()
+    backend = cell['backend']
+    if backend == 'cloud':
+        from slimta.cloudstorage import CloudStorage
+        sub = qc.FakeObjectStore()
+        mq = qc.FakeMessageQueue()
+        store = CloudStorage(sub, mq)
+    else:
+        store, sub = qc.make_storage(backend)
+        mq = None
+    n = cell['n']
+    announce = []
+    gate = None
+    if backend == 'disk':
+        from gevent.event import Event
+        gate = Event()
+
+        def wait():
+            gate.wait()
+            gate.clear()
+            out, announce[:] = list(announce), []
+            return out
+        store.wait = wait
+
+    def decide(rec):
+        if rec['attempts'] >= 2:
+            return qc.Outcome.OK, None
+        return qc.Outcome.MAPPING, per_rcpt_outcomes(rec, 3)
+
+    relay = qc.ScriptRelay(decide)
+
+    def backoff(envelope, attempts):
+        if attempts >= 3:
+            return None
+        return [0, 5][api.choice('delay%d' % attempts, 2)]
+
+    queue = Queue(store, relay, backoff=backoff,
+                  bounce_factory=lambda env, reply: None)
+    queue.start()
+    qc.run_until_quiescent()
+    env = qc.make_envelope('m1', 'sender@z', RCPTS[:n])
+    what = api.choice('event', 2)
+    k = api.choice('k', cell['K'])
+    state = {}
+
+    def event():
+        qid = state.get('id')
+        if what == 1:
+            gevent.spawn(queue.flush)
+            return
+        if qid is None:
+            return
+        if backend == 'disk':
+            announce.append((qc.now(), qid))
+            gate.set()
+        elif backend == 'redis':
+            sub.lists.setdefault(store.queue_key, []).append(
+                pickle.dumps((qc.now(), qid)))
+            sub._wake()
+        else:
+            mq.msgs.append((qc.now(), qid, 999))
+            mq.ev.set()
+
+    base = qc.YIELDS[0]
+    qc.INJECT[base + k] = event
+    orig_write = store.write
+
+    def write(envelope, timestamp):
+        qid = orig_write(envelope, timestamp)
+        state['id'] = qid
+        return qid
+    store.write = write
+    queue.enqueue(env)
+    qc.run_until_quiescent()
+    queue.kill()
+    info = dict(backend=backend, n=n, event=['announce', 'flush'][what], k=k)
+    api.observe('attempts', [[c['rcpts'], c['attempts']]
+                             for c in relay.calls])
+    check_attempts(relay, info)
+
+
 def classify(cell, inputs, failure):
     return {'kind': cell['kind'], 'backend': cell['backend'],
-            'startup_race': cell.get('startup_race', 0)}
+            'startup_race': cell.get('startup_race', 0),
+            'event': (failure.get('info') or {}).get('event')}
